@@ -215,6 +215,8 @@ type tr struct {
 	// and, for a map / slice asserted out of such a value, where an update of it has to be written back
 	src  map[string]origin // Go variable holding a JSON value -> where it was read
 	prov map[string]origin // Go variable holding a map / slice asserted from such a value -> where it lives
+	// `xs[i]` inside `for i := 0; i < len(xs); i++` over a string slice the body never assigns: the Lean name of the element
+	elemAlias map[string]string
 }
 
 type origin struct {
@@ -490,6 +492,13 @@ func (x *tr) expr(e ast.Expr) ex {
 		i := x.expr(v.Index)
 		if i.t.k != "Int" {
 			x.bad(v, "index type")
+		}
+		if xi, ok := v.X.(*ast.Ident); ok {
+			if ii, ok := v.Index.(*ast.Ident); ok {
+				if vn, ok := x.elemAlias[xi.Name+"["+ii.Name+"]"]; ok {
+					return ex{vn, T("Str"), false}
+				}
+			}
 		}
 		switch a.t.k {
 		case "StrList", "PtrStrList":
@@ -1615,6 +1624,28 @@ func (x *tr) forStmt(ind int, s *ast.ForStmt) {
 				}
 				return true
 			})
+			// `for i := 0; i < len(xs); i++` over a string slice that the body never assigns IS `for i, v := range xs` with `xs[i]` for v
+			// (len(xs) is invariant, every xs[i] is in range): emitted in that form, so that the two spellings translate alike
+			if xsId := indexLoopOver(s, el, lit, be); xsId != nil {
+				if coll := x.expr(xsId); coll.t.k == "StrList" && !coll.partial && !assignsTo(s.Body, xsId.Name) {
+					x.push()
+					vn := x.declare(xsId.Name+"_"+el, T("Str"))
+					in := x.declare(el, T("Int"))
+					if x.elemAlias == nil {
+						x.elemAlias = map[string]string{}
+					}
+					key := xsId.Name + "[" + el + "]"
+					x.elemAlias[key] = vn
+					x.emit(ind, "for ("+vn+", "+in+"_n) in ("+coll.s+").zipIdx do")
+					x.emit(ind+1, "let "+in+" : Int := "+in+"_n")
+					x.inLoop++
+					x.block(ind+1, s.Body.List)
+					x.inLoop--
+					delete(x.elemAlias, key)
+					x.pop()
+					return
+				}
+			}
 			x.push()
 			bound := x.expr(be.Y)
 			if bound.partial || bound.t.k != "Int" {
@@ -1633,6 +1664,76 @@ func (x *tr) forStmt(ind int, s *ast.ForStmt) {
 		}
 	}
 	x.bad(s, "for loop of an unsupported shape")
+}
+
+// indexLoopOver: is the loop `for i := 0; i < len(xs); i++` for an identifier xs?  (the caller has checked init literal, post and `<`)
+func indexLoopOver(s *ast.ForStmt, el string, lit *ast.BasicLit, be *ast.BinaryExpr) *ast.Ident {
+	if lit.Value != "0" {
+		return nil
+	}
+	if id, ok := be.X.(*ast.Ident); !ok || id.Name != el {
+		return nil
+	}
+	c, ok := be.Y.(*ast.CallExpr)
+	if !ok || len(c.Args) != 1 {
+		return nil
+	}
+	if f, ok := c.Fun.(*ast.Ident); !ok || f.Name != "len" {
+		return nil
+	}
+	id, _ := c.Args[0].(*ast.Ident)
+	return id
+}
+
+// assignsTo: does the block assign `name`, an element of it, take its address, or declare a variable of that name?
+func assignsTo(b *ast.BlockStmt, name string) bool {
+	r := false
+	isName := func(e ast.Expr) bool {
+		for {
+			switch v := e.(type) {
+			case *ast.Ident:
+				return v.Name == name
+			case *ast.IndexExpr:
+				e = v.X
+			case *ast.SliceExpr:
+				e = v.X
+			case *ast.ParenExpr:
+				e = v.X
+			default:
+				return false
+			}
+		}
+	}
+	ast.Inspect(b, func(n ast.Node) bool {
+		switch v := n.(type) {
+		case *ast.AssignStmt:
+			for _, l := range v.Lhs {
+				if isName(l) {
+					r = true
+				}
+			}
+		case *ast.IncDecStmt:
+			if isName(v.X) {
+				r = true
+			}
+		case *ast.UnaryExpr:
+			if v.Op == token.AND && isName(v.X) {
+				r = true
+			}
+		case *ast.ValueSpec:
+			for _, nm := range v.Names {
+				if nm.Name == name {
+					r = true
+				}
+			}
+		case *ast.RangeStmt:
+			if (v.Key != nil && isName(v.Key)) || (v.Value != nil && isName(v.Value)) {
+				r = true
+			}
+		}
+		return true
+	})
+	return r
 }
 
 func (x *tr) stmt(ind int, st ast.Stmt) {
